@@ -80,7 +80,7 @@ func structuralMutations(q0 *pb.QuoteV4) []msgMut {
 				for k := 0; k < m.Get(fd).List().Len(); k++ {
 					k := k
 					ln := len(m.Get(fd).List().Get(k).Bytes())
-					for _, nl := range []int{0, ln - 1, ln + 1} {
+					for _, nl := range []int{0, ln - 1, ln + 1, ln + 256} {
 						nl := nl
 						out = append(out, msgMut{fmt.Sprintf("%s[%d]:len=%d", name, k, nl), func(q *pb.QuoteV4) {
 							mm, _ := p.resolve(q, true)
@@ -96,7 +96,7 @@ func structuralMutations(q0 *pb.QuoteV4) []msgMut {
 					mm, _ := p.resolve(q, true)
 					mm.Clear(fd)
 				}})
-				for _, nl := range []int{0, ln - 1, ln + 1, 1} {
+				for _, nl := range []int{0, ln - 1, ln + 1, 1, ln + 256, ln + 65536} {
 					if nl < 0 || nl == ln {
 						continue
 					}
@@ -122,10 +122,12 @@ func structuralMutations(q0 *pb.QuoteV4) []msgMut {
 				}
 			case fd.Kind() == protoreflect.Uint32Kind:
 				cur := uint32(m.Get(fd).Uint())
-				for _, v := range []uint32{0, 1, cur + 1, cur - 1, 1 << 16, 1<<32 - 1} {
-					if v == cur {
+				seenV := map[uint32]bool{}
+				for _, v := range []uint32{0, 1, cur + 1, cur - 1, 1 << 16, 1<<32 - 1, cur + 1<<16, cur + 7<<16, cur | 1<<31} {
+					if v == cur || seenV[v] {
 						continue
 					}
+					seenV[v] = true
 					v := v
 					out = append(out, msgMut{fmt.Sprintf("%s:=%d", name, v), func(q *pb.QuoteV4) {
 						mm, _ := p.resolve(q, true)
